@@ -84,7 +84,14 @@ def effective_durs(spec):
 
 
 def config_yaml(case):
-    s = "lights:\n  l1: {number: 1, subtype: led}\n  l2: {number: 2, subtype: led}\nshow_player:\n"
+    lf = case.get("light_fade", 0)
+    s = ""
+    per_light = ""
+    if lf and case.get("fade_style") == "default":
+        s += "light_settings:\n  default_fade_ms: %d\n" % lf
+    elif lf:
+        per_light = ", fade_ms: %d" % lf
+    s += "lights:\n  l1: {number: 1, subtype: led%s}\n  l2: {number: 2, subtype: led%s}\nshow_player:\n" % (per_light, per_light)
     for name, sh in sorted(case["shows"].items()):
         p = sh["play"]
         s += "  play_%s:\n    sh%s:\n      key: k%s\n      speed: %s\n      loops: %d\n      start_step: %d\n" % (
@@ -103,12 +110,16 @@ def config_yaml(case):
 
 def gen_case(r):
     shows = {}
-    for name in (["A", "B"] if r.random() < 0.5 else ["A"]):
+    # a non-zero light fade: every removal of a show's context then leaves a fade-out entry behind for that long
+    light_fade = r.choice([0, 0, 0, 125, 250, 250, 500])
+    for name in (["A", "B"] if r.random() < 0.5 or light_fade else ["A"]):
         n = r.randint(1, 4)
         spec = {"durs": [r.choice([1, 2, 2, 3, 4, 6]) for _ in range(n)], "style": r.choice(["duration", "duration", "rel", "abs"]),
                 "lights": r.choice([1, 2]), "fade": r.choice([0, 0, 1, 2])}
         if n == 1:
             spec["style"] = "duration"
+        if light_fade:
+            spec["lights"] = 2          # both shows on the same lights
         play = {"speed": r.choice(["1", "1", "2", "4", "0.5"]), "loops": r.choice([-1, -1, 0, 1, 2]), "start": r.randint(1, n),
                 "running": r.random() < 0.88, "manual": r.random() < 0.1, "prio": r.choice([0, 1, 1, 5])}
         shows[name] = {"spec": spec, "play": play}
@@ -141,11 +152,15 @@ def gen_case(r):
             alive.discard(name)
         ops.append([gap, name, act])
     n0 = len(ops)
-    for name in sorted(shows):
-        ops.append([r.choice([0, 2, 6, 40]), name, "stop"])
+    fu = light_fade * 32 // 1000         # the fade-out window in request-gap units (1/32 s)
+    for i, name in enumerate(sorted(shows)):
+        # the stops land inside each other's fade-out windows, at the same instant, or exactly at a window's end
+        gaps = [0, 2, 6, 40] if not fu or i == 0 else [0, 0, 1, 2, max(fu // 2, 1), max(fu - 1, 1), fu, fu + 2]
+        ops.append([r.choice(gaps), name, "stop"])
     for _ in range(r.randint(2, 4)):
         ops.append([r.choice([0, 2, 8]), r.choice(sorted(shows)), r.choice(["resume", "advance", "back", "pause", "speed2"])])
-    return {"shows": shows, "ops": ops, "slow": r.random() < 0.3, "bg": r.random() < 0.6, "tail": 64, "keep": len(ops) - n0}
+    return {"shows": shows, "ops": ops, "slow": r.random() < 0.3, "bg": r.random() < 0.6, "tail": 64, "keep": len(ops) - n0,
+            "light_fade": light_fade, "fade_style": r.choice(["light", "default"])}
 
 
 def is_nontrivial(case):
@@ -258,7 +273,7 @@ class Run:
             self.install()
             if case["bg"]:
                 m.lights["l1"].color((3, 3, 3), key="bg", priority=0, fade_ms=0)
-                m.lights["l2"].color((4, 4, 4), key="bg", priority=2, fade_ms=0)
+                m.lights["l2"].color((4, 4, 4), key="bg", priority=0, fade_ms=0)
             for gap, name, act in case["ops"]:
                 target = self.vm.now() + gap * 2 * UNIT
                 try:
@@ -281,6 +296,20 @@ class Run:
                 self.fail.append(("crash-in-callback", {"error": repr(e)}))
             self.final = self.light_state()
             self.end = units(self.vm.now())
+            # a later low-priority fade on the same lights: the hardware must get the same fade commands as in the twin
+            probe = {}
+            for l in LIGHTS:
+                light = m.lights[l]
+                t0 = self.vm.now()
+                light.color((9, 90, 200), fade_ms=1000, key="probe", priority=0)
+                probe[l] = {"fade_cmd": [[round(x, 6) for x in (f[0], f[1] - t0 if f[1] >= 0 else -1, f[2], f[3] - t0 if f[3] >= 0 else -1)]
+                                         for f in (light.hw_drivers[c][0]._current_fade for c in ("red", "green", "blue"))]}
+            self.vm.advance(0.5)
+            for l in LIGHTS:
+                light = m.lights[l]
+                probe[l]["mid_color"] = tuple(light.get_color())
+                probe[l]["mid_hw"] = [round(light.hw_drivers[c][0].current_brightness * 255, 6) for c in ("red", "green", "blue")]
+            self.final["probe"] = probe
             self.stopped = {n: bool(i._stopped) for n, i in self.inst.items()}
         finally:
             self.uninstall()
@@ -480,8 +509,10 @@ def execute_case(case):
     run = Run(case).execute()
     run.fail += oracle(run, case)
     twin = Run(case, twin=True).execute()
-    if run.final != twin.final:
+    if {k: v for k, v in run.final.items() if k != "probe"} != {k: v for k, v in twin.final.items() if k != "probe"}:
         run.fail.append(("lights-differ-from-twin-without-show", {"with_show": run.final, "twin": twin.final}))
+    elif run.final != twin.final:
+        run.fail.append(("later-fade-differs-from-twin-without-show", {"with_show": run.final["probe"], "twin": twin.final["probe"]}))
     return run
 
 
@@ -548,6 +579,13 @@ def sh(durs, style="duration", lights=1, fade=0, speed="1", loops=-1, start=1, r
 
 
 CORPUS = [
+    # two shows on the same lights, light fade 250 ms: B is stopped while A's fade-out is still running, then at its end
+    {"shows": {"A": sh([2, 2], lights=2, prio=1), "B": sh([4], lights=2, prio=5)}, "slow": False, "bg": True, "tail": 64, "keep": 3,
+     "light_fade": 250, "fade_style": "light",
+     "ops": [[0, "A", "play"], [0, "B", "play"], [20, "A", "stop"], [3, "B", "stop"], [2, "A", "resume"]]},
+    {"shows": {"A": sh([2, 2], lights=2, prio=1), "B": sh([4], lights=2, prio=0)}, "slow": True, "bg": False, "tail": 64, "keep": 3,
+     "light_fade": 500, "fade_style": "default",
+     "ops": [[0, "A", "play"], [2, "B", "play"], [20, "B", "stop"], [0, "A", "stop"], [16, "B", "advance"]]},
     # D14: a show that completed by itself, then step_back for its key
     {"shows": {"A": sh([2, 2], loops=0)}, "slow": False, "bg": True, "tail": 64,
      "keep": 2, "ops": [[0, "A", "play"], [24, "A", "back"], [16, "A", "stop"], [4, "A", "advance"]]},
